@@ -336,7 +336,7 @@ func progWorker(w *pool.W, arg json.RawMessage) {
 	// the unmutated program must parse and run without any crash, else the family is unsound
 	base := check(src, sh.Mode, true)
 	if base.Clause != "" || !(base.Outcome == "run:ok" || base.Outcome == "run:throw") {
-		a.sum.Outcomes["base-not-clean:"+base.Outcome+":"+base.Key]++
+		a.sum.Outcomes[fmt.Sprintf("base-not-clean:%d:%s:%s:%s", sh.Prog, base.Outcome, base.Key, base.Detail)]++
 	}
 	toks, inner := crudeTokens(src)
 	sort.Ints(inner)
@@ -541,12 +541,14 @@ func main() {
 		defer cleanupScratch()
 		pool.Serve(map[string]pool.Handler{"tok": tokWorker, "bytes": byteWorker, "corpus": corpusWorker, "ladder": ladderWorker, "prog": progWorker, "reduce": reduceWorker})
 	}
+	bench()
 	c := ev.New("C01")
 	if c.Replay != "" {
 		replay(c)
 		return
 	}
 	c.SetBudget(6*time.Minute, 40*time.Minute)
+	t0 := time.Now()
 	quick := c.Quick()
 
 	var shards []pool.Shard
@@ -639,6 +641,20 @@ func main() {
 		}
 	}
 
+	// development aid: VERIF_C01_FAM=abcde restricts the families (evidence is then marked non-exhaustive)
+	if fam := os.Getenv("VERIF_C01_FAM"); fam != "" {
+		keep := map[string]string{"prog": "e", "corpus": "a", "tok": "b", "bytes": "c", "ladder": "d"}
+		filter := func(in []pool.Shard) (out []pool.Shard) {
+			for _, s := range in {
+				if strings.Contains(fam, keep[s.Kind]) {
+					out = append(out, s)
+				}
+			}
+			return
+		}
+		shards, lshards = filter(shards), filter(lshards)
+		c.NotExhaustive("VERIF_C01_FAM=" + fam)
+	}
 	total := map[string]int64{}
 	outcomes := map[string]int64{}
 	other := map[string]int{}
@@ -694,8 +710,16 @@ func main() {
 		c.Fail(key, clause, size, k, d.Reason+"\n"+firstLines(d.Stderr, 14))
 		outcomes["worker-death"]++
 	}
-	st1 := pool.Run(shards, pool.Options{}, onRec, onDeath)
-	st2 := pool.Run(lshards, pool.Options{Workers: 6, MemLimit: 16 << 30}, onRec, onDeath)
+	var st1, st2 pool.Stats
+	if len(shards) > 0 {
+		st1 = pool.Run(shards, pool.Options{}, onRec, onDeath)
+	}
+	t1 := time.Since(t0)
+	if len(lshards) > 0 {
+		st2 = pool.Run(lshards, pool.Options{Workers: 6, MemLimit: 16 << 30}, onRec, onDeath)
+	}
+	c.Set("wall_main_pool_s", t1.Seconds())
+	c.Set("wall_ladder_pool_s", (time.Since(t0) - t1).Seconds())
 
 	// final pass: delta-reduce the representative of every in-process finding key
 	var rshards []pool.Shard
